@@ -123,15 +123,15 @@ def _gen_pairs(rnd, params):
 ky, ms, ct = z3.Consts("ky ms ct", BYTES)
 is_enc = specfn("is_enc", [TBytes, TBytes, TBytes], TBool,
                 py=lambda key, m, c: len(c) == 16 + 16 * (len(m) // 16 + 1) and c[16:] == cbc_enc.py(key, c[:16], pkcs7.py(m, 16)),
-                doc="c is an AES-CBC/PKCS7 encryption of m under key (any IV)")
+                doc="c is an AES-CBC/PKCS7 encryption of m under key (any IV)", macro=True)
 is_enc.define = lambda key, m, c: z3.And(Len(c) == 16 + 16 * (Len(m) / 16 + 1),
                                          z3.Extract(c, 16, Len(c) - 16) == cbc_enc(key, z3.Extract(c, 0, 16), pkcs7(m, 16)))
 dec = specfn("dec", [TBytes, TBytes], TBytes, py=lambda key, c: unpad7.py(cbc_dec.py(key, c[:16], c[16:]), 16),
-             doc="AES-CBC/PKCS7 decryption")
+             doc="AES-CBC/PKCS7 decryption", macro=True)
 dec.define = lambda key, c: unpad7(cbc_dec(key, z3.Extract(c, 0, 16), z3.Extract(c, 16, Len(c) - 16)), 16)
 dec_ok = specfn("dec_ok", [TBytes, TBytes], TBool,
                 py=lambda key, c: len(c) >= 16 and len(c) % 16 == 0 and pkcs7_valid.py(cbc_dec.py(key, c[:16], c[16:]), 16),
-                doc="Decrypt(key, c) does not raise for a cipher without a declared ciphertext length")
+                doc="Decrypt(key, c) does not raise for a cipher without a declared ciphertext length", macro=True)
 dec_ok.define = lambda key, c: z3.And(Len(c) >= 16, Len(c) % 16 == 0,
                                       pkcs7_valid(cbc_dec(key, z3.Extract(c, 0, 16), z3.Extract(c, 16, Len(c) - 16)), 16))
 lemma("dec_enc", [ky, ms, ct], Imp(is_enc(ky, ms, ct), And(dec_ok(ky, ct), dec(ky, ct) == ms)),
